@@ -5,8 +5,8 @@ _H = {"middleware/cache": ["zz_verif_common_test.go", "zz_verif_c03_*.go"], "mid
 CHECK = {
     "level": "model_checking",
     "engines": ["space"],
-    "technique": "exhaustive (stored, asked) question-pair enumeration x seeding (natural / forged 64-bit key collision) x serving route on the real cache pipeline, against a reference equivalence; exhaustive key-agreement enumeration over label bytes",
-    "level_text": "Every ordered pair of the question alphabet (6 names incl. case variant, escaped dot, NUL label, subdomain x A/AAAA x IN/CH x CD x 5 ECS audiences x 3 stored scopes) is run through the real Cache on every route (message path, byte fast path, wire-born strict path, Store.Get, Store.Lookup, failure exact/zone, subtree cut, wire alias chase, purge) with the stored entry admitted naturally and planted under the asked question's own 64-bit key; the reply may carry the stored marker only if the reference says same question, CD partition and audience.",
+    "technique": "exhaustive (stored, asked) question-pair enumeration x seeding (natural / forged 64-bit key collision) x serving route on the real cache pipeline, against a reference equivalence; exhaustive key-agreement enumeration over label bytes; explicit history search (clients of different subnets and source lengths asking in sequence) against a reference scope-containment model",
+    "level_text": "Every ordered pair of the question alphabet (6 names incl. case variant, escaped dot, NUL label, subdomain x A/AAAA x IN/CH x CD x 5 ECS audiences x 3 stored scopes) is run through the real Cache on every route (message path, byte fast path, wire-born strict path, Store.Get, Store.Lookup, failure exact/zone, subtree cut, wire alias chase, purge) with the stored entry admitted naturally and planted under the asked question's own 64-bit key; the reply may carry the stored marker only if the reference says same question, CD partition and audience. audience: every history of <=3 (thorough <=4) positive questions by 8 clients (sources /16, /24, /25, none, out-of-network, CD) x authority scope {0,16,24} (thorough 8 values) under a policy whose floor (/20) is below its ceiling (/24): a reply served from cache must come from an entry whose scope contains the client's forwarded prefix and is no more specific than it; no stored scope may be more specific than the floor or the forwarded source.",
     "level_note": "Trusted: the reference equivalence (ASCII fold, type, class, CD, scope containment) transcribes the property; alphabet is finite (names outside it, longer chains of operations are not explored); real 64-bit collisions are simulated by planting entries under the probed key.",
     "rule": "cases = seeding x S x stored-scope x Q x audience x route, enumerated completely; 'nontrivial' = distinct cases that produced a hit or were a forged collision between non-equivalent questions (the cases where the verifier, not the hash, decides)",
     "assumptions": ["stub upstream answers misses with TC=1 so that asking never changes cache state"],
@@ -14,6 +14,12 @@ CHECK = {
     "units": {
         "pairs": {"pkg": "middleware/cache", "run": "TestVerifC03Pairs", "harness": _H, "stub_tests": ["middleware/cache"]},
         "keys": {"pkg": "internal/cache", "run": "TestVerifC03Keys", "harness": {"internal/cache": ["zz_verif_c03_*.go"]}, "shards": 7},
+        # audiences across client HISTORIES (sources shorter / longer than the floor, clamped scopes): the C19 scoped-history
+        # search judged for the audience clause only
+        "audience": {"pkg": "middleware/cache", "run": "TestVerifC03Audience",
+                     "harness": {"middleware/cache": ["zz_verif_common_test.go", "zz_verif_c03_test.go", "zz_verif_c03_routes_test.go", "zz_verif_c04_test.go", "zz_verif_c19_*.go"], "middleware": ["zz_verif_export.go"]},
+                     "rewrite": {"middleware/cache": ["time"], "middleware": ["time"], "internal/dnsutil": ["time"]},
+                     "stub_tests": ["middleware/cache"], "budget_s": {"quick": 40, "thorough": 300}},
         "routes": {"pkg": "middleware/cache", "run": "TestVerifC03Routes", "harness": _H, "stub_tests": ["middleware/cache"]},
     },
 }
